@@ -273,6 +273,37 @@ def run_dist(r, case, g):
                     ks_ok &= res is not False
                 if ks_ok:
                     r.cell(label, shape, "samples")
+        # ---------------- sample_and_log_prob of the distribution itself: the returned samples are draws (same law as
+        # sample()) and the returned values are log_prob of exactly those samples
+        if me["can_sample"]:
+            try:
+                torch.manual_seed(seed + 17)
+                with torch.no_grad():
+                    s2, lp2 = d.sample_and_log_prob(2000, c)
+                    s2 = s2 if c is None else s2[0]
+                    lp2 = lp2 if c is None else lp2[0]
+                    ref2 = lp(s2.clone())
+                r.ev()
+                r.count("salp_pairing_checks")
+                tolp = 1e-9 if torch.get_default_dtype() == torch.float64 else 1e-4
+                okf = torch.isfinite(ref2) & torch.isfinite(lp2)
+                if okf.any() and float((ref2 - lp2).abs()[okf].max()) > tolp * (1 + float(ref2.abs()[okf].max())):
+                    r.viol("pairing", "%s.sample_and_log_prob returns values that are not log_prob of the returned samples" % label,
+                           max_diff=float((ref2 - lp2).abs()[okf].max()), **det)
+                elif s is not None and not me["discrete"]:
+                    a1 = s.reshape(s.shape[0], -1)[:, 0].double()
+                    b1 = s2.reshape(2000, -1)[:, 0].double()
+                    za, zb = torch.sort(a1).values, torch.sort(b1).values
+                    allv = torch.cat([za, zb])
+                    Dks = float((torch.searchsorted(za, allv, right=True).double() / len(za)
+                                 - torch.searchsorted(zb, allv, right=True).double() / len(zb)).abs().max())
+                    crit2 = 3.2724 * ((len(za) + len(zb)) / (len(za) * len(zb))) ** 0.5
+                    r.worst("salp_ks/crit", Dks / crit2)
+                    if Dks > crit2:
+                        r.viol("samples_not_from_density", "%s.sample_and_log_prob returns samples with another law than sample()" % label,
+                               ks=Dks, critical=crit2, **det)
+            except Exception as e:
+                r.count("salp_raised")
         # ---------------- mean
         if me["has_mean"]:
             r.ev()
